@@ -131,6 +131,15 @@ CHECKS["C03"] = dict(
     note="Tolerance 1e-9*max|sample|; the quantile definition is left open (bracket of neighbouring order statistics).",
     design="7/C03",
 )
+CHECKS["C04"] = dict(
+    technique="property-based testing (Hypothesis): validity predicate per contour point computed from coordinates and sample only (ray angle, empirical AND/OR exceedance, closure, range filter), with the documented precision warning as exemption",
+    text="Generated non-negative 2-D models and samples (200-30000 points, optional rounding), alpha in [1e-3,0.2], deg_step 1-30, allowed_error 0.005-0.2, OR theta ranges around the sample diagonal. "
+         "Without the precision warning every searched point must lie on its ray and have empirical AND/OR exceedance within allowed_error*alpha of alpha (strict >); with the warning the same is "
+         "required on rays where the search provably can succeed (crossing outside the search's blind zone, neighbouring levels inside the tolerance band). Closure rows as documented, OR points a "
+         "theta-ordered subsequence inside 1.1*max, dropped rays leave the range above alpha(1-allowed_error), coordinates a float array, sample untouched.",
+    note="About 40 % of generated cases carry the documented precision warning (measured, class histogram in the evidence); marginal_icdf's Monte-Carlo uses the harness-seeded global RNG.",
+    design="7/C04",
+)
 NOT_YET = {}
 
 def main():
